@@ -297,7 +297,11 @@ def table_accepts_function(fn, param, obj):
 
 
 def call_function(fn, base, param, obj):
-    kw = base()
+    try:
+        with quiet_io():
+            kw = base()
+    except Exception as e:     # noqa  -- the well-formed call itself cannot be built (e.g. a default Kauri no longer fits)
+        return {"outcome": "base-failed", "exc": e, "family": family(e)}
     kw[param] = obj
     try:
         with quiet_io(), time_limit(30):
@@ -376,3 +380,109 @@ def cg_spec(groups, d):
     if all(0 <= i < d for i in flat) and len(set(flat)) == len(flat):
         return ("ok", [list(g) for g in groups] + [[i] for i in range(d) if i not in flat])
     return ("reject",)
+
+
+# ------------------------------------------------------------------ process isolation
+class RecCtx:
+    """stand-in for core.Ctx inside a forked worker: records the bookkeeping calls as JSON lines (flushed one by one, so
+    that a crash of the interpreter — a segfault inside numpy / POT on an unvalidated hyperparameter — loses nothing)"""
+
+    def __init__(self, ctx, fh):
+        self.tier, self.seed, self.fh = ctx.tier, ctx.seed, fh
+
+    def _w(self, *a):
+        import json
+        self.fh.write(json.dumps(a, default=str) + "\n")
+        self.fh.flush()
+
+    def mark(self, desc):
+        self._w("mark", desc)
+
+    def case(self, canon, nontrivial=True, sample=None):
+        self._w("case", canon, nontrivial, sample)
+
+    def compared(self, unit, n=1):
+        self._w("compared", unit, n)
+
+    def count(self, key, n=1):
+        self._w("count", key, n)
+
+    def corr_break(self, unit, case, detail):
+        self._w("corr_break", unit, case, detail)
+
+    def violation(self, what, unit, inp, expected=None, actual=None, key=None, how=None):
+        self._w("violation", what, unit, inp, expected, actual, key, how)
+
+
+def _tuplify(x):
+    return tuple(_tuplify(e) for e in x) if isinstance(x, list) else x
+
+
+def isolated(ctx, jobs, nproc=8):
+    """jobs: [(name, fn, args)]; each `fn(rec_ctx, *args)` runs in a forked child (up to nproc at a time); the recorded
+    bookkeeping is replayed on `ctx` in job order.  A child that dies is a finding of its own (the real code crashed the
+    interpreter); a Python exception escaping `fn` is a harness error."""
+    import json
+    import os
+    import tempfile
+    import traceback
+    from .core import MachineryError
+    pending = list(enumerate(jobs))
+    running, results = {}, {}
+    tmpdir = tempfile.mkdtemp(prefix="c16_")
+
+    def launch(idx, job):
+        path = os.path.join(tmpdir, f"{idx}.jsonl")
+        pid = os.fork()
+        if pid == 0:
+            code = 0
+            try:
+                with open(path, "w") as fh:
+                    rc = RecCtx(ctx, fh)
+                    try:
+                        job[1](rc, *job[2])
+                    except BaseException:      # noqa
+                        rc._w("error", traceback.format_exc())
+                        code = 3
+            finally:
+                os._exit(code)
+        running[pid] = (idx, path)
+
+    while pending or running:
+        while pending and len(running) < nproc:
+            launch(*pending.pop(0))
+        pid, status = os.wait()
+        if pid in running:
+            idx, path = running.pop(pid)
+            results[idx] = (path, status)
+    for idx, job in enumerate(jobs):
+        path, status = results[idx]
+        last_mark = None
+        for line in open(path):
+            try:
+                op = json.loads(line)
+            except ValueError:
+                continue       # a line cut by the crash
+            k, a = op[0], op[1:]
+            if k == "mark":
+                last_mark = a[0]
+            elif k == "case":
+                ctx.case(_tuplify(a[0]), a[1], a[2])
+            elif k == "compared":
+                ctx.compared(a[0], a[1])
+            elif k == "count":
+                ctx.count(a[0], a[1])
+            elif k == "corr_break":
+                ctx.corr_break(a[0], a[1], a[2])
+            elif k == "violation":
+                ctx.violation(a[0], a[1], a[2], expected=a[3], actual=a[4], key=a[5], how=a[6])
+            elif k == "error":
+                raise MachineryError(f"worker {job[0]} raised:\n{a[0]}")
+        os.unlink(path)
+        if status != 0:
+            sig = status & 0x7f
+            ctx.violation(f"the interpreter died (status {status}, signal {sig}) while running: {last_mark}", "crash",
+                          {"job": job[0], "last_call": last_mark}, expected="ValueError/TypeError or a completed call",
+                          actual=f"process killed by signal {sig}" if sig else f"exit status {status >> 8}",
+                          key=f"crash:{job[0]}", how=str(last_mark))
+    os.rmdir(tmpdir)
